@@ -43,6 +43,8 @@ def check(prog, run):
     av1_reader_rule(prog, run, "R9")
     run.rule("R10", "offset-passing header parsers (VP9): every read starts at the offset returned by the read before it (+k) on every path; no field is read from bytes another field consumed")
     cursor_chain_rule(prog, run, "R10")
+    run.rule("R13", "parameter-set slots by NAL type: for all 256 header bytes the unit lands in the slot of its specification type only; first wins (H.264, H.265)")
+    parameter_set_table_rule(prog, run, "R13")
     run.rule("R12", "AV1 bit reader primitives (read_bit, read_bits, skip_bits) and the uvlc helper behave as the descriptors f(n) / uvlc() of the AV1 specification (complete tabulation of their finite state)")
     bitreader_primitives_rule(prog, run, "R12")
     run.rule("R11", "byte-packed header fields (VP9): fields taken from one byte occupy non-empty, pairwise disjoint bit ranges")
@@ -654,6 +656,59 @@ def av1_reader_rule(prog, run, rule):
             run.bad(rule, "AV1 sequence header (%s): %s" % (label, mm["what"]), "on the syntax path %s the parser deviates from the specification: %s" % (
                 {k: v for k, v in mm["scenario"].items() if v}, mm["what"]), mir.loc_of(u.bodies[name]) if name in u.bodies else None)
     run.extra["av1_syntax_paths_compared"] = total
+
+
+# ---- R13: which NAL unit goes into which parameter-set slot ------------------------------------------------------------------------
+PS_CODECS = {"codec::h264::extract_avc_config": (lambda b: b & 0x1F, {"sps": 7, "pps": 8}),
+             "codec::h265::extract_hevc_config": (lambda b: (b >> 1) & 0x3F, {"vps": 32, "sps": 33, "pps": 34})}
+
+
+def parameter_set_table_rule(prog, run, rule):
+    """For all 256 values of a NAL unit's header byte, the unit is stored in the slot the codec specification assigns to its type
+    (H.264 7.3.1: nal_unit_type = b & 0x1F, 7 = SPS, 8 = PPS; H.265 7.3.1.2: (b >> 1) & 0x3F, 32/33/34 = VPS/SPS/PPS), in no
+    other slot, and a later unit of the same type never replaces it (first wins).  The extractors are tabulated by finite-domain
+    interpretation of their MIR on frames [unit under test, one canonical unit per slot] and [canonical units, unit under test]
+    (model: AnnexBNalIter yields the frame's units - C14; `to_vec` keeps the unit's identity)."""
+    from .. import minieval as E
+    u = prog.lib
+    n = 0
+    for fn_name, (type_of, slots_) in sorted(PS_CODECS.items()):
+        cands = [k for k in u.bodies if mir.norm(k) == fn_name and not u.bodies[k]["in_test_cfg"]]
+        if len(cands) != 1:
+            run.bad(rule, "anchor %s" % fn_name, "extractor not found")
+            continue
+        ex = cands[0]
+        canon = {nm: [({7: 0x67, 8: 0x68, 32: 0x40, 33: 0x42, 34: 0x44}[t]), 0xC0 + t, 0x11] for nm, t in slots_.items()}
+        bad = None
+        try:
+            for b in range(256):
+                for first in (True, False):
+                    test = [b, 0xEE, 0xDD]
+                    order = sorted(slots_, key=lambda x: slots_[x])
+                    units = ([test] if first else []) + [canon[s_] for s_ in order] + ([] if first else [test])
+                    fr = E.Bytes([0, 0, 0, 1, units[0][0]], minlen=5 * len(units), tag="frame")
+                    fr.nals = [E.Bytes(x, minlen=len(x), tag="nal%d" % i, exact=len(x)) for i, x in enumerate(units)]
+                    m = E.Machine(u, models={"codec::common::AnnexBNalIter::new": lambda m_, a, d: E.OnceIter(list(getattr(a[0], "nals", [])))})
+                    m.pred_models.append((lambda nn: "AnnexBNalIter" in nn and nn.endswith("::next"), E._next))
+                    m.lenient = True
+                    r = m.call_fn(ex, [fr])
+                    n += 1
+                    if not (isinstance(r, E.Adt) and r.name == "Option" and r.variant == 1 and isinstance(r.fields[0], E.Adt) and r.fields[0].names):
+                        raise E.Unsupported("result outside the model for header byte 0x%02x: %r" % (b, r))
+                    cfg = r.fields[0]
+                    ti = 0 if first else len(units) - 1
+                    for s_ in order:
+                        got = cfg.get(s_)
+                        idx = next((i for i, x in enumerate(fr.nals) if x is got), None)
+                        want = ti if (first and type_of(b) == slots_[s_]) else (order.index(s_) + (1 if first else 0))
+                        if idx != want and bad is None:
+                            bad = (b, first, s_, idx, want, type_of(b))
+        except E.Unsupported as e:
+            run.bad(rule, "parameter-set table %s" % fn_name.split("::")[-1], "cannot tabulate the extractor (fail closed): %s" % e, mir.loc_of(u.bodies[ex]))
+            continue
+        run.check(bad is None, rule, "parameter-set table %s" % fn_name.split("::")[-1], "every header byte: unit stored in the slot of its type only, first unit of a type wins (256 x 2 frames)",
+                  "" if bad is None else "a NAL unit with header byte 0x%02x (type %d) placed %s: slot `%s` holds unit #%s of the frame, the specification's unit is #%d" % (bad[0], bad[5], "first" if bad[1] else "last", bad[2], bad[3], bad[4]), mir.loc_of(u.bodies[ex]))
+    run.floor(rule, n, 1024, "extractor evaluations")
 
 
 # ---- R12: the bit reader the AV1 parser is written against --------------------------------------------------------------------------
